@@ -123,24 +123,16 @@ func runC05Actors(t *testing.T, p *Plan) *Outcome {
 				s.Advance(100 * time.Millisecond)
 				continue
 			}
-			tk := parked[k]
+			tk, stuck := PickFair(parked, k, 400)
 			s.noteChoice(n, tk.Site)
-			if strings.HasPrefix(tk.Site, "spin:") && tk.Spins > 400 {
-				others := 0
-				for _, x := range parked {
-					if !strings.HasPrefix(x.Site, "spin:") {
-						others++
-					}
-				}
-				if others == 0 {
-					fail("livelock/"+tk.Site, fmt.Sprintf("only busy-waiting tasks are left (%d), %s has spun %d times: the flag it waits for is never cleared", len(parked), tk.Site, tk.Spins))
-					break
-				}
+			if stuck {
+				fail("livelock/"+tk.Site, fmt.Sprintf("only busy-waiting tasks are left (%d), each has re-tested its flag more than 400 times (%s: %d): the flag is never cleared", len(parked), tk.Site, tk.Spins))
+				break
 			}
 			s.Release(tk)
 		}
 		if o.Sig == "" {
-			if !s.DrainAll(3000) {
+			if !s.DrainAll(6000) {
 				p2 := s.ParkedTasks()
 				site := "?"
 				if len(p2) > 0 {
